@@ -65,6 +65,13 @@ def ieval(x, env):
         return {'-': -v, '+': v, '!': int(not v), '~': ~v}[op]
     if k == 'cond':
         return ieval(x['a'] if ieval(x['c_'], env) else x['b'], env)
+    if k == 'call' and '__call__' in env:
+        return env['__call__'](x, env)
+    if k == 'bin' and x.get('op') in ('&&', '||'):
+        l = ieval(x['l'], env)
+        if x['op'] == '&&':
+            return int(bool(l) and bool(ieval(x['r'], env)))
+        return int(bool(l) or bool(ieval(x['r'], env)))
     if k == 'bin':
         l, r = ieval(x['l'], env), ieval(x['r'], env)
         op = x['op']
